@@ -2,7 +2,7 @@
 
 Engine E2: for every program of a bounded family (which of page / def / nested def / named block / anonymous
 block are cached, the key form, buffered+filter flags, where cache_* arguments are given) a BFS over histories of
-{render(c), invalidate_*, cache.set/get, toggle cache_enabled} on the real Template(s) with a real backend, compared
+{render(c), render(c) with a section body that raises, invalidate_*, cache.set/get, toggle cache_enabled, recompile} on the real Template(s) with a real backend, compared
 step by step with a dict model and a small reference interpreter of the program's sections.
 """
 
@@ -118,6 +118,14 @@ def build_text(prog):
 # reference: sections, keys, expected output
 
 
+class ModelBoom(Exception):
+    pass
+
+
+class Boom(Exception):
+    pass
+
+
 class Model:
     def __init__(self, prog, info, tid):
         self.prog = prog
@@ -130,9 +138,12 @@ class Model:
         self.lead = ""
         self.tag = "B:"
         self.ghost = ()
+        self.fault = None
 
     def tick(self, name):
         self.counts[name] = self.counts.get(name, 0) + 1
+        if name == self.fault:
+            raise ModelBoom(name)
 
     def key_of(self, sec, ctx, a=None):
         if sec == "page":
@@ -191,8 +202,9 @@ class Model:
             return self.cached_run("anon", self.info["anon"], tag, run)
 
         def body():
+            # the sections run in the order the template writes them (a fault stops the rest)
             self.tick("body")
-            head = "\n" * (3 if self.has_page_tag() else 2) if False else ""
+            parts = [d("x"), d("y"), n(), b()]
             extra = ""
             if self.prog.get("extra") == "kwonly":
                 def krun():
@@ -206,7 +218,8 @@ class Model:
                     if self.enabled:
                         self.store["render_render_k"] = (out, tag)
                     extra = out + "|"
-            return self.lead + self.tag + "%s|%s|%s|o[%s]|%s|%s\n%s" % (v, d("x"), d("y"), n(), b(), extra, anon())
+            parts.append(anon())
+            return self.lead + self.tag + "%s|%s|%s|o[%s]|%s|%s\n%s" % (v, parts[0], parts[1], parts[2], parts[3], extra, parts[4])
 
         return self.cached_run("page", "render_body", tag, body)
 
@@ -292,12 +305,14 @@ class World:
     def close(self):
         self.sm.restore()
 
-    def ctx(self, name):
+    def ctx(self, name, fault=None):
         c = dict(CONTEXTS[name])
         counts = self.counts
 
         def tick(n):
             counts[n] = counts.get(n, 0) + 1
+            if n == fault:
+                raise Boom(n)
             return ""
 
         c["tick"] = tick
@@ -329,6 +344,36 @@ class World:
                 if self.cfg["backend"] == "rec" and not viols:
                     self.check_backend_args(m, viols)
                 out = "render:%s" % ("hit" if sum(m.counts.values()) < 6 else "miss")
+            elif kind == "fault":
+                # a render during which the body of one section raises (if that section runs at all)
+                cname, sec = ev[2], ev[3]
+                self.counts.clear()
+                m.counts = {}
+                del self.cc.LOG[:]
+                m.lead = self.skeleton("")
+                self.current_v = CONTEXTS[cname]["v"]
+                try:
+                    got = t.render(**self.ctx(cname, fault=sec))
+                    raised = False
+                except Boom:
+                    raised = True
+                m.fault = sec
+                try:
+                    exp = m.render(CONTEXTS[cname], cname)
+                    mraised = False
+                except ModelBoom:
+                    mraised = True
+                finally:
+                    m.fault = None
+                if mraised and not raised:
+                    viols.append(("fault:swallowed", "an exception raised in a section body propagates out of render()", "Boom raised", "returned %r" % (got[-60:],)))
+                elif raised and not mraised:
+                    viols.append(("fault:spurious", "a section served from the cache does not run its body", "output", "Boom raised"))
+                elif not raised and got != exp:
+                    viols.append(("render:output", "a cached section replays the output of the render that created its entry", exp, got))
+                elif self.counts != m.counts:
+                    viols.append(("render:executions", "a section body runs only when the backend has no value for its key", m.counts, dict(self.counts)))
+                out = "fault:%s" % ("raised" if raised else "served")
             elif kind == "invalidate_body":
                 t.cache.invalidate_body()
                 m.store.pop("render_body", None)
@@ -436,6 +481,12 @@ def events(cfg):
     for ti in range(nt):
         for cn in ("c1", "c2", "c3") if prog["key"] == "ctx" else ("c1", "c2"):
             ev.append(("render", ti, cn))
+        if ti == 0 and not cfg.get("nofault"):
+            secs = [x for x in ("d", "n", "b") if x in c] + ["anon"]
+            if prog.get("extra") == "kwonly":
+                secs.append("k")
+            for sec in secs:
+                ev.append(("fault", ti, "c1", sec))
         if "page" in c:
             ev.append(("invalidate_body", ti))
         if "d" in c:
